@@ -1,5 +1,5 @@
 SPECIFICATION Spec
-CONSTANTS N = 3 FailAt = 0 MaxConns = 3 CleanupOnFailedStart = FALSE
-INVARIANTS TypeOK AllTracked StopClosesAll FailedStartLeavesNothing
+CONSTANTS N = 3 FailAt = 0 MaxConns = 3 CleanupOnFailedStart = FALSE MaxErrs = 0 RetryTransient = FALSE
+INVARIANTS TypeOK AllTracked StopClosesAll FailedStartLeavesNothing ServedWhileBound
 PROPERTIES LoopsEnd NoAcceptAfterStop
 CHECK_DEADLOCK FALSE
